@@ -77,6 +77,20 @@ func newApp(c Case) *fiber.App {
 				return ctx.Redirect().Status(307).With("fk", "fv"+ctx.Params("p1"), 7).To("/x")
 			case "redirinput":
 				return ctx.Redirect().Status(303).WithInput().To("/x")
+			case "redirprep":
+				// a redirect that is prepared and then does not take place (the handler takes another branch)
+				ctx.Redirect().Status(303).With("pk", "pv"+ctx.Params("p1"))
+			case "redirback":
+				// Back() without a fallback fails when the request has no Referer header
+				if err := ctx.Redirect().Status(301).Back(); err != nil {
+					return err
+				}
+				return nil
+			case "redirroute":
+				if err := ctx.Redirect().Status(308).Route("no-such-route"); err != nil {
+					return fiber.NewError(500, "no such route")
+				}
+				return nil
 			case "bindauto":
 				var q vk.BindTarget
 				_ = ctx.Bind().WithAutoHandling().Query(&q)
@@ -324,7 +338,7 @@ func firstDiff(a, b string) string {
 
 // ---- generator ------------------------------------------------------------------------------------------
 
-var allActs = []string{"locals", "viewbind", "hdr", "redir", "redirinput", "bindauto", "bindbody", "path", "method", "err", "status", "observe", "json", "render", "type", "sendfile", "sendfilemax", "sendfiledl"}
+var allActs = []string{"locals", "viewbind", "hdr", "redir", "redirinput", "redirprep", "redirback", "redirroute", "bindauto", "bindbody", "path", "method", "err", "status", "observe", "json", "render", "type", "sendfile", "sendfilemax", "sendfiledl"}
 
 // assetPath: a small committed file served by the SendFile actions (the test binary runs in the package directory)
 const assetPath = "testdata/asset.txt"
